@@ -80,6 +80,24 @@ def rule_chkeff(ctx: Ctx) -> RuleResult:
             res.violation([q, "no-path precondition"], f"{f.short} does not raise SpilException for a Sid without path", f.relpath, f.node.lineno)
         else:
             res.ok(f"{f.short}: Sid without path", "raises SpilException before any effect")
+    # create / update report what happened: False is answered only when the path is not there afterwards, the given data is
+    # written whenever some was given
+    for q in ("spil.sid.pathops.write_paths.WriteToPaths.create", "spil.sid.pathops.write_paths.WriteToPaths.update"):
+        g = ctx.p.function(q)
+        data_p = g.params[2] if len(g.params) > 2 else "data"
+        for r in [n for n in own_nodes(g.node) if isinstance(n, ast.Return) and isinstance(n.value, ast.Constant) and n.value.value is False]:
+            fs = facts_at(ctx, g, r)
+            if any(t.endswith(".exists()") and truth for t, truth in fs) and not any(t.endswith(".exists()") and not truth for t, truth in fs):
+                res.violation([q, "reports failure on success"], f"{g.short} answers False when the path exists (and goes on when it does not): a "
+                                                                 f"created entity is reported as failed and its data is not written", g.relpath, r.lineno)
+        for c in [n for n in own_nodes(g.node) if isinstance(n, ast.Call) and (dotted(n.func) or "").split(".")[-1] == "_write_data"]:
+            fs = facts_at(ctx, g, c)
+            if (data_p, False) in fs:
+                res.violation([q, "data not written"], f"{g.short} writes the data only when none was given", g.relpath, c.lineno)
+            elif q.endswith(".create") and (data_p, True) not in fs:
+                res.note(f"{g.short}: `{norm(c)[:40]}`", "data written unconditionally")
+            else:
+                res.ok(f"{g.short}: `{norm(c)[:40]}`", "the given data is written (when there is some)")
     # create: parents first, directories with parents=True
     cr = ctx.p.function("spil.sid.pathops.write_paths.WriteToPaths.create")
     cfg = cfg_of(cr.node)
@@ -147,7 +165,15 @@ def rule_overlay(ctx: Ctx) -> RuleResult:
     at = flow.node_of(u)
     recv_from_load = any(a.kind == "call" and a.text in ("json.load", "json.loads") for a in flow.depends(u.func.value, at.id))
     arg_is_new = u.args and any(a.kind == "param" and a.text == data_p for a in flow.aliases(u.args[0], at.id))
-    if recv_from_load and arg_is_new:
+    hides = False
+    for n in own_nodes(f.node):
+        if isinstance(n, ast.BoolOp) and isinstance(n.op, ast.And) and any(x is loads[0] for v in n.values[:-1] for x in ast.walk(v)):
+            hides = True
+    if hides:
+        res.violation([f.qualname, "stored data dropped"], "_write_data: the loaded sidecar content is the left operand of an `and`: what was stored "
+                                                          "is thrown away whenever there is some, keys written earlier do not persist", f.relpath,
+                      loads[0].lineno)
+    elif recv_from_load and arg_is_new:
         res.ok("_write_data merge", "previous.update(new): later values replace earlier ones, other keys persist")
     else:
         res.violation([f.qualname, "merge direction"], f"_write_data: `{norm(u)}` does not overlay the new data onto the stored data", f.relpath, u.lineno)
@@ -216,6 +242,16 @@ def rule_sidecar(ctx: Ctx) -> RuleResult:
 
 
 # ------------------------------------------------------------------------------------------------ C16
+def _hides_record(expr: ast.AST, call: ast.AST) -> bool:
+    """the data call sits in an `and` whose last operand is something else (`data and {}`), or under `not`"""
+    for x in ast.walk(expr):
+        if isinstance(x, ast.BoolOp) and isinstance(x.op, ast.And) and any(any(y is call or norm(y) == norm(call) for y in ast.walk(v)) for v in x.values[:-1]):
+            return True
+        if isinstance(x, ast.UnaryOp) and isinstance(x.op, ast.Not) and any(y is call or norm(y) == norm(call) for y in ast.walk(x.operand)):
+            return True
+    return False
+
+
 def rule_yield1(ctx: Ctx) -> RuleResult:
     res = RuleResult("R-YIELD1")
     for q, finder_call in (("spil.sid.read.getters.getter_finder.GetByFinder.get", "find"),
@@ -248,6 +284,8 @@ def rule_yield1(ctx: Ctx) -> RuleResult:
                     why = "the yielded record is not self.get_data(<the found Sid>, ...)"
                 elif any(isinstance(s, (ast.Break, ast.Continue, ast.Return)) for s in ast.walk(lp)):
                     why = "the loop can skip or stop early"
+                elif _hides_record(inline_locals(f, y.value, y), gd[0].node):
+                    why = f"`{norm(y.value)[:60]}` does not hand the record on (it is replaced whenever it is non-empty)"
                 else:
                     ok = True
         if ok:
